@@ -35,7 +35,7 @@ use serde_json::json;
 use std::collections::{BTreeMap, HashSet};
 use vharness::{
     Args, Report, Rng, catch,
-    fixtures::{self, t},
+    fixtures::{self},
     fnv1a, run_workers, shrink,
 };
 
@@ -56,6 +56,16 @@ struct D {
     filled: i64,
 }
 
+/// Exchange timestamps of this check are 300 microseconds apart (t = 0..5 spans 1.5 ms): "older" and "newer" are
+/// decided on the timestamps as given, whatever their distance - also below one millisecond.
+const TIME_UNIT_US: i64 = 300;
+fn t(units: i64) -> chrono::DateTime<chrono::Utc> {
+    fixtures::t0() + chrono::TimeDelta::microseconds(units * TIME_UNIT_US)
+}
+fn units_of(time: chrono::DateTime<chrono::Utc>) -> i64 {
+    (time - fixtures::t0()).num_microseconds().unwrap_or(i64::MAX) / TIME_UNIT_US
+}
+
 impl D {
     fn zero_rem(&self) -> bool {
         self.filled == QTY
@@ -66,7 +76,7 @@ impl D {
     fn of(open: &Open) -> D {
         D {
             id: open.id.0.trim_start_matches("oid").parse().unwrap_or(255),
-            t: fixtures::ms_of(open.time_exchange),
+            t: units_of(open.time_exchange),
             filled: if open.filled_quantity == filled_dec(NEAR) { NEAR } else if open.filled_quantity.fract().is_zero() { i64::try_from(open.filled_quantity).unwrap_or(-1) } else { -1 },
         }
     }
